@@ -43,6 +43,18 @@ def precedences(ctx):
     return {k.v: v.v for k, v in d.items}
 
 
+def _one_slot_template(v):
+    """'%'-style template of a string formatted with exactly one argument, in
+    any of the three spellings; None otherwise."""
+    from ..util import template_of
+    t = template_of(v)
+    if t is None or len(t[1]) != 1:
+        return None
+    tpl = t[0].replace('%', '%%')
+    head, _sep, tail = tpl.partition('{}')
+    return (head + '%s' + tail).replace('{{', '{').replace('}}', '}')
+
+
 def _name_rewrites(ctx, ci):
     """Values stored into attr['name'] by process/update_name of the class:
     returns (set of rewritten names, set of source names they replace or None)."""
@@ -66,16 +78,28 @@ def _name_rewrites(ctx, ci):
                 if isinstance(v, ast.Subscript) and isinstance(
                         v.value, ast.Constant) and isinstance(v.value.value, str):
                     out.append(('add', set(v.value.value)))
-                elif isinstance(v, ast.BinOp) and isinstance(v.op, ast.Mod) and \
-                        isinstance(v.left, ast.Constant) and isinstance(
-                        v.left.value, str):
-                    # 'u%s' % self.name under `if self.name in '<chars>'`
+                elif _one_slot_template(v) is not None:
+                    # 'u%s' % self.name (or 'u{}'.format / f'u{...}') under
+                    # `if self.name in '<chars>'`
                     guard = _enclosing_in_guard(m, n)
                     if guard is None:
                         raise AnalysisError(
                             '%s: name rewrite `%s` without an `in` guard' % (
                                 m.fq, ast.unparse(n)))
-                    out.append(('guarded', v.left.value, guard))
+                    out.append(('guarded', _one_slot_template(v), guard))
+                elif isinstance(v, ast.BinOp) and isinstance(
+                        v.op, ast.Add) and isinstance(
+                        v.left, ast.Constant) and isinstance(
+                        v.left.value, str) and not isinstance(
+                        v.right, ast.Constant):
+                    # 'u' + self.name
+                    guard = _enclosing_in_guard(m, n)
+                    if guard is None:
+                        raise AnalysisError(
+                            '%s: name rewrite `%s` without an `in` guard' % (
+                                m.fq, ast.unparse(n)))
+                    out.append(('guarded', v.left.value.replace(
+                        '%', '%%') + '%s', guard))
                 elif isinstance(v, ast.Constant) and isinstance(v.value, str):
                     out.append(('add', {v.value}))
                 elif isinstance(v, ast.IfExp) and all(
